@@ -55,10 +55,13 @@ TNext(Upd(_, _)) == Consume(Upd) \/ Finish
 \* same answer whatever else runs at the same time and whatever ran before (hidden shared scratch state, "last
 \* value" hints and pooled buffers do not): the calls are replayed (a) sequentially in other orders (workers = 1)
 \* and (b) from 8 goroutines at once.  (c) workers = 0: byte slices the library RETURNED are the caller's; they are read
-\* again at the end of the run and must still hold what they held when they were returned.
+\* again at the end of the run and must still hold what they held when they were returned.  (d) workers = -1: a history
+\* of calls on objects is executed again WITHOUT reading any object on the way; the final observation equals the one
+\* of the observed run (what the library computes lazily on first read does not depend on when that is).
 ConcurrentReplayVerdict(e) ==
   IF e.mismatches = 0 THEN <<>>
-  ELSE <<IF e.workers = 0 THEN "returned-memory-changed-by-later-call"
+  ELSE <<IF e.workers = -1 THEN "result-depends-on-when-it-is-observed"
+         ELSE IF e.workers = 0 THEN "returned-memory-changed-by-later-call"
          ELSE IF e.workers = 1 THEN "result-depends-on-earlier-calls" ELSE "result-differs-under-concurrent-use", e.first.sequential, e.first.concurrent>>
 
 \* the event consumed by the step that led to the current state
